@@ -18,7 +18,7 @@ EXT, EXP = 1, 2
 
 def main(tier, seed):
     ck = Check(PID, tier, seed, "Props.C13", ["Model/Sim.v", "Model/Bus.v", "Oracle/SimCheck.v", "Oracle/SimOracle.v",
-                                              "Proofs/BusP.v", "Props/C13.v"])
+                                              "Model/Startup.v", "Proofs/BusP.v", "Props/C13.v"])
     ck.build_and_audit()
     rng = random.Random(seed)
     small = [
